@@ -492,6 +492,17 @@ func (a *Act) modelCall2(ctx *blockCtx, key string, callee *ssa.Function, c *ssa
 			g.usedAssumed["sort.Strings returns the sorted permutation (sortStrs: ascending in byte-wise lexicographic order strLe, a permutation of its argument); modelled by re-binding the SSA value of the slice"] = true
 			return Val{T: "0", S: "Int"}, nil, true
 		}
+	case "strings.ReplaceAll":
+		// strings.ReplaceAll(s, `"`, ""): the string without its quote characters (spec function
+		// stripQuotes, uninterpreted; assumed meaning of ReplaceAll for these literal arguments)
+		if o, ok := g.litOf(args[1].T); ok && o == "\"" {
+			if n, ok := g.litOf(args[2].T); ok && n == "" {
+				if sf := g.w.specFuns["stripQuotes"]; sf != nil {
+					g.usedAssumed["strings.ReplaceAll(s, `\"`, \"\") == stripQuotes(s)"] = true
+					return Val{T: "(" + sf.SMTName + " " + args[0].T + ")", S: "Str", G: types.Typ[types.String]}, nil, true
+				}
+			}
+		}
 	case "strings.HasPrefix", "strings.HasSuffix":
 		if lit, ok := g.litOf(args[1].T); ok {
 			g.usedAssumed[key+" (built-in model for literal argument)"] = true
